@@ -75,6 +75,8 @@ type Config struct {
 	SlowSite   string // goroutines whose spawn site contains this are slow: ...
 	SlowPct    int    // ... with this probability (percent) a released step first sleeps a seeded time
 	CrashIO    int    // the simulated process dies in front of its CrashIO-th file operation (0 = never)
+	CrashSite  string // count the steps taken at yield sites whose name contains this ...
+	CrashNth   int    // ... and let the simulated process die in front of the CrashNth-th of them (0 = only count)
 }
 
 type gstate struct {
@@ -125,6 +127,7 @@ type Sim struct {
 	uuid      atomic.Uint64
 	tmpn      atomic.Uint64
 	ioN       atomic.Int64 // file operations reached so far
+	siteSteps int
 	crashSite atomic.Value // site of the file operation the injected crash preceded
 }
 
@@ -687,9 +690,26 @@ func (s *Sim) Run(done func() bool) Verdict {
 		if s.Steps > s.cfg.MaxSteps {
 			return Budget
 		}
+		if s.cfg.CrashSite != "" && bytes.Contains([]byte(g.site), []byte(s.cfg.CrashSite)) {
+			// process death in front of the CrashNth-th step taken at a site of
+			// the named component: the chosen goroutine is not released, the
+			// simulated process stops here
+			s.siteSteps++
+			if s.cfg.CrashNth > 0 && s.siteSteps == s.cfg.CrashNth {
+				s.crashed.Store(true)
+				s.crashSite.Store(g.site)
+				s.mu.Lock()
+				g.parked = true
+				s.mu.Unlock()
+				return Crashed
+			}
+		}
 		g.ch <- struct{}{}
 	}
 }
+
+// SiteSteps is the number of steps taken at sites matching Config.CrashSite.
+func (s *Sim) SiteSteps() int { return s.siteSteps }
 
 // Kill tears the simulated process down: parked goroutines leave through
 // runtime.Goexit (their deferred closes run); returns the number of goroutines
